@@ -78,7 +78,9 @@ def make_h_kinds(n):
     def h(ctx):
         from vsym.nodes import Duck
         from vsym.pathex import If
-        from vsym.symkind import SKind, SymSet, kind_table
+        import src.linters.nesting.rust_analyzer as rs_mod
+        import src.linters.nesting.typescript_analyzer as ts_mod
+        from vsym.symkind import SKind, kind_table, symbolic_tables
         lang = ctx.pick("grammar", ("typescript", "rust"))
         table = kind_table(lang)
         if lang == "typescript":
@@ -100,12 +102,8 @@ def make_h_kinds(n):
             node = Duck(kinds[i], "", [node], start=(i + 2, 0))
         body = Duck(body_kind, "", [node], start=(1, 0))
         func = Duck(fn_kind, "", [Duck("identifier", "f"), body], start=(0, 0))
-        saved = A.NESTING_NODE_TYPES
-        try:
-            A.NESTING_NODE_TYPES = SymSet(saved)
+        with symbolic_tables(A, ts_mod if lang == "typescript" else rs_mod):
             depth, _line = A().calculate_max_depth(func)
-        finally:
-            A.NESTING_NODE_TYPES = saved
         spec = 1
         for i, k in enumerate(kinds):
             counted = k.is_one_of(DOC_KINDS[lang])
@@ -115,6 +113,35 @@ def make_h_kinds(n):
         ctx.cover("depth>1" if (depth > 1 if not hasattr(depth, "z") else bool(depth > 1)) else "depth=1")
         ctx.require("every-listed-kind-adds-a-level-and-nothing-else-does", Eq(depth, spec), grammar=lang, chain=n)
     return h
+
+
+def h_mixed_language_run(ctx):
+    """One rule object, one config dict, files of two languages in one run (as the orchestrator does)."""
+    from src.linters.nesting.linter import NestingDepthRule
+    l1 = ctx.pick("first_language", LANGS)
+    l2 = ctx.pick("second_language", LANGS)
+    chain = [ctx.pick(f"c{i}", ("if", "for", "while")) for i in range(ctx.pick("len", (1, 2, 3)))]
+    top = ctx.int("max_nesting_depth", 1)
+    ov_lang = ctx.pick("override_for", ("none", "first", "second"))
+    cfg = {"max_nesting_depth": top}
+    eff = {l1: top, l2: top}
+    if ov_lang != "none":
+        ov = ctx.int("lang_limit", 1)
+        key = l1 if ov_lang == "first" else l2
+        cfg[key] = {"max_nesting_depth": ov}
+        eff[key] = ov
+    md = {"nesting": cfg}           # the SAME dict object for every file of the run
+    rule = NestingDepthRule()
+    spec = 1 + len(chain)
+    for lang in (l1, l2):
+        L, hi = render.function(lang, "fn0", "function", chain, False)
+        vs = rule.check(mkctx(lang, "\n".join(L) + "\n", md))
+        ctx.note("lang", lang)
+        ctx.note("spec_depth", spec)
+        # the auxiliary `eff` of K1 is not declared here: express the Python off-by-one directly
+        want = (spec - (1 if lang == "python" else 0)) > eff[lang]
+        ctx.cover("reported" if vs else "clean")
+        ctx.require("verdict-uses-the-limit-of-the-file's-own-language", Eq(len(vs) == 1, want), lang=lang, first=l1, second=l2, override_for=ov_lang)
 
 
 def _all(lang):
@@ -143,6 +170,11 @@ def obligations(tier):
                   % (nmax, "py %d / ts %d / rs %d kinds" % (len(render.PY), len(render.TS), len(render.RS))),
            timeout=300 if tier == "quick" else 2400, workers=14, must_cover=("reported", "clean"),
            outside="JSX, macros, labelled blocks, generators, Python match/case, constructs inside nested functions"),
+        Ob(name="K1c-two-languages-one-rule-object", engine="pathex", harness=h_mixed_language_run,
+           functions=["NestingDepthRule.check/_load_config (state carried from file to file)", "load_linter_config", "NestingConfig.from_dict"],
+           bounds="top-level limit and one per-language override unbounded integers >= 1 (symbolic); forked: ordered pair of languages (16), chain of 1-3 constructs, override for the first / second / no language. "
+                  "Python's known one-less depth is built into this obligation's expectation (it is about which limit applies)",
+           timeout=300, workers=14, must_cover=("reported", "clean")),
         Ob(name="K2-symbolic-node-kinds-whole-grammar", engine="pathex", harness=make_h_kinds(3 if tier == "quick" else 5),
            functions=["TypeScriptNestingAnalyzer.calculate_max_depth/_increases_depth", "RustNestingAnalyzer.calculate_max_depth/_increases_depth"],
            bounds="chain of %d duck-typed nodes below the function body; the kind of EVERY node is a solver variable ranging over the complete kind table of the real grammar "
